@@ -964,7 +964,14 @@ ADDENDA = {
            "continuation subscribed in that nested step is still subscribed when subscribe returns.",
     "C03": " from_iterable_'s emission loop (srcfac unit, loop contract: the user's iterator is asked only while the subscription is not "
            "disposed) is part of this check; a loop of another shape drifts to the native run, which counts the items pulled "
-           "after a dispose() issued inside on_next.",
+           "after a dispose() issued inside on_next. After-emission obligations (own.py, every handler nested in a subscribe function of "
+           "operators/ and observable/): between handing an element downstream (`<x>.on_next(..)`, directly or through a local helper) and "
+           "a call of a user function of the operator or a new .subscribe( stands a re-check `if <disposable the returned subscription "
+           "owns>.is_disposed` - a subscriber that unsubscribes inside on_next has nothing more done on its behalf; replayed natively by "
+           "ownrun.py (the subscriber disposes inside its k-th on_next, every lambda of the shape logs its calls).",
+    "C25": " The action of a Disposable is user code: the monitor harness also runs the path on which it raises - the exception may leave "
+           "dispose(), every critical section on the way out still keeps the rely (is_disposed never goes back to False) and the claimed "
+           "token stays spent (no second run).",
     "C07": " The K1 contracts of the five stage operators (take_, skip_, take_last_, skip_last_, filter_indexed_) whose spec machines the closed "
            "forms are lemmas over are re-proved inside this check.",
     "C09": " A try statement with specific clauses only (`except KeyError:`) around a user call is not a guard, but each of its clauses must "
